@@ -48,9 +48,10 @@ SECTIONS = [".text", ".data", ".rodata", ".sdata", ".rdata", ".init", ".fini", "
 OPT_KEYS = ["version", "compiler", "region", "debug"]
 OPT_VALS = ["us", "jp", "eu", "gcc", "ido", "on", "off"]
 DIRS = ["src", "asm", "lib", "build", "{version}", "{compiler}", "a{version}b", "{version}{region}",
-        "{region}_{debug}", "x{debug}", "{version}x", "o.d", "sub"]
+        "{region}_{debug}", "x{debug}", "{version}x", "o.d", "sub", "se\u00f1al_{version}"]
 FILES = ["main.o", "util.o", "data.o", "rom_header.o", "libc.a", "libultra.a", "{version}.o", "f{region}.o",
-         "{version}_{compiler}.o", "weird", "x.y.o", "lib{region}.a", "noext", "dir/inner.o", "{debug}{debug}.o"]
+         "{version}_{compiler}.o", "weird", "x.y.o", "lib{region}.a", "noext", "dir/inner.o", "{debug}{debug}.o",
+         "\u00e9t\u00e9_{region}.o"]
 SYMS = ["entrypoint", "osMemSize", "__start", "gCounter", "_binary_start", "func_80001000"]
 CLASS_NAMES = ["overlays", "battle", "menus", "extra"]
 
@@ -95,7 +96,7 @@ class Profile:
 def gen_opts(r, prof):
     n = r.below(4)
     keys = r.sample(OPT_KEYS, n)
-    opts = [[k, r.pick(OPT_VALS)] for k in keys]
+    opts = [[k, "" if r.chance(0.04) else r.pick(OPT_VALS)] for k in keys]     # (an option may carry the empty value)
     if r.chance(0.1) and opts:   # a repeated key: the last one wins
         opts.append([opts[0][0], r.pick(OPT_VALS)])
     if r.chance(0.1):
@@ -105,7 +106,7 @@ def gen_opts(r, prof):
 
 def gen_pairs(r, n=None):
     n = n or (1 + r.below(2))
-    return [[r.pick(OPT_KEYS), r.pick(OPT_VALS[:4])] for _ in range(n)]
+    return [[r.pick(OPT_KEYS), "" if r.chance(0.04) else r.pick(OPT_VALS[:4])] for _ in range(n)]
 
 
 def gen_cond(r, prof, into):
